@@ -202,8 +202,14 @@ pub fn run(ctx: &Ctx) -> i32 {
         st.count("blank_and_meta_sets");
         check_case(ctx, st, &combos[i], Settings::new(if i % 4 == 0 { REP } else { 0 }));
     });
+    let mut det = gen::blank_repeat_cases();
+    det.extend(gen::cluster_repeat_cases());
+    par_for(&ctx.run, det.len() * 2, |i, st| {
+        st.count("blank_and_cluster_repeat_cases");
+        check_case(ctx, st, &det[i % det.len()], Settings::new(if i < det.len() { REP } else { REP | NOSTART }));
+    });
     let n = if ctx.thorough { 80_000 } else { 4_000 };
-    let names = ["ws", "meta", "mixed", "graph", "astral", "ab", "case", "classes", "sgr"];
+    let names = ["ws", "meta", "mixed", "graph", "astral", "ab", "case", "classes", "sgr", "clusters"];
     let alphabets: Vec<(String, Vec<String>)> = names.iter().map(|a| (a.to_string(), gen::alphabet(a))).collect();
     par_for(&ctx.run, n, |i, st| {
         let mut rng = Rng::new(seed, 0x60_0000 + i as u64);
